@@ -26,6 +26,8 @@ func init() {
 		NotDecided: "Exactness of ipaddr.Summarize (third-party arithmetic), label-selector semantics, that cidrContainsCIDR is a correct containment test as values.",
 		Run:        runC08,
 		Mutants: []Mutant{
+			{Name: "network-assembled-from-the-written-address", File: "internal/config/config.go",
+				Old: "\t\treturn []*net.IPNet{n}, nil", New: "\t\treturn []*net.IPNet{{IP: net.ParseIP(strings.Split(cidr, \"/\")[0]), Mask: n.Mask}}, nil", Expect: "CIDR-CANONICAL"},
 			{Name: "last-node-selector-wins", File: "internal/config/config.go",
 				Old: "\t\tfor _, s := range labelSelectors {\n\t\t\tnodeLabels := labels.Set(node.Labels)\n\t\t\tif s.Matches(nodeLabels) {\n\t\t\t\tres[node.Name] = true\n\t\t\t\tcontinue OUTER\n\t\t\t}\n\t\t}\n\t}\n\treturn res, nil",
 				New: "\t\tselected := false\n\t\tfor _, s := range labelSelectors {\n\t\t\tnodeLabels := labels.Set(node.Labels)\n\t\t\tselected = s.Matches(nodeLabels)\n\t\t}\n\t\tif selected {\n\t\t\tres[node.Name] = true\n\t\t\tcontinue OUTER\n\t\t}\n\t}\n\treturn res, nil", Expect: "every-matching-node"},
